@@ -167,6 +167,7 @@ func buildAllShards(quick bool) []shard {
 
 func (w *worker) runShard(s shard, quick bool) {
 	w.useCfg(s.Cfg)
+	w.seen = map[uint64]struct{}{}
 	switch s.Fam {
 	case "f1":
 		line := allLines()[s.A]
@@ -870,16 +871,17 @@ func main() {
 	}
 	rule := fmt.Sprintf("wire level, one in-memory connection per case, %d configs %v. "+
 		"F1 = %d request lines (9 methods x %d targets x 4 versions) x every set of <=2 header letters from %d slots / %d letters (each slot has its own hostile value menu; Content-Type/-Encoding/framing letters also shape the body)%s. "+
-		"F2 = %d seeds x every single edit (delete, replace, insert of %d bytes at every offset) and every pair of edits for the %d shortest seed(s). "+
+		"F2 = %d seeds x every single edit (delete, replace, insert of %d bytes at every offset) and every pair of edits for the %d shortest seed(s)%s. "+
 		"F3 = %d helpers x %d attacker strings (all strings of <=3 symbols over {a,CR,LF,CRLF,NUL,\",;,comma,:,SP,e-acute} + 4 classics). "+
 		"Balloon = %d inputs (msgpack array headers in fiber_flash, 1-3 layers of gzip over zeros) each on a fresh app in a child under ulimit -v 4000000. "+
-		"Non-trivial = differs from the benign baseline (F1: any header letter or hostile request-line letter; F2: any edit; F3: q not in a*; balloon: all). "+
+		"Non-trivial = differs from the benign baseline (F1: any header letter or hostile request-line letter; F2: any edit; F3: q not in a*; balloon: all) AND its request bytes were not already produced by another case of the same enumeration shard (hash set per shard; duplicates across shards of the pair neighbourhood are not removed). "+
 		"Oracles: no panic (escaped or inside an accessor probe); process survives and ServeConn returns within %.0f CPU-seconds (balloon inputs: %.0f), a death/hang is confirmed by re-running the case alone in a fresh process; MemStats.TotalAlloc delta <= %d + %d*len(request) (re-measured on a fresh app before reporting); reply parses under the strict parser, response count bounded by the header blocks sent (exactly 1 for body-less well-formed requests); "+
 		"F3: header names subset of the helper's expected set, each once, expected status and body (helpers marked name-like are not judged for q containing CR/LF/NUL: outside the documented domain of a token position); "+
 		"status: definitely malformed requests (empty method, non-numeric/negative/conflicting Content-Length, header line without colon, NUL in a header value) -> 4xx; well-formed request with method outside the configured set -> 501, inside -> not 501; never 5xx other than 501/505; everything else unspecified.",
 		len(cfgs), cfgNames, len(allLines()), len(targetsL), len(slots), nLetters,
-		map[bool]string{true: "", false: fmt.Sprintf(" plus every set of 3 letters for the %d request lines that reach a handler", len(handlerLines()))}[quick],
-		len(seeds), len(editBytes), pairSeedCount(quick), len(helpers), len(attackStrings()), len(balloonCases(quick)), cpuCapSeconds, cpuCapBalloonSeconds, budgetA, budgetB)
+		map[bool]string{true: " (quick tier: the 2-letter sets are left out for the request lines refused at the request line itself - empty method or version JUNK)",
+			false: fmt.Sprintf(" plus every set of 3 letters for the %d request lines that reach a handler", len(handlerLines()))}[quick],
+		len(seeds), len(editBytes), pairSeedCount(quick), map[bool]string{true: " (quick tier: pairs on the configs default and customctx only)", false: ""}[quick], len(helpers), len(attackStrings()), len(balloonCases(quick)), cpuCapSeconds, cpuCapBalloonSeconds, budgetA, budgetB)
 	ev := core.Evidence{
 		Level:       "exploration",
 		Exhaustive:  true,
